@@ -938,7 +938,30 @@ pub fn cmd_btree_replay(args: &HashMap<String, String>) -> i32 {
                     continue
                 }
                 let key = bt_key(k);
-                let ops = if st["a"] == "ins" {
+                let ops = if st["a"] == "batch" {
+                    // one commit with several operations (the change set is sorted by the database)
+                    let mut v: Vec<(u8, parity_db::Operation<Vec<u8>, Vec<u8>>)> = Vec::new();
+                    let mut list: Vec<&J> = st["ops"].as_array().unwrap().iter().collect();
+                    // (handed over in an order of the harness's choosing: sorting is the database's business)
+                    if i % 2 == 0 {
+                        list.reverse();
+                    }
+                    for o in list {
+                        let kk = o["k"].as_u64().unwrap();
+                        let key = bt_key(kk);
+                        if o["a"] == "ins" {
+                            let val = if variant == "rc" { key.clone() } else { format!("v{kk}:{i}").into_bytes() };
+                            *counts.entry(kk).or_insert(0u32) += 1;
+                            v.push((0u8, parity_db::Operation::Set(key, val)));
+                        } else {
+                            let n = if variant == "rc" { counts.remove(&kk).unwrap_or(0).max(1) } else { 1 };
+                            for _ in 0..n {
+                                v.push((0u8, parity_db::Operation::Dereference(key.clone())));
+                            }
+                        }
+                    }
+                    v
+                } else if st["a"] == "ins" {
                     let mut v = format!("v{k}:{i}").into_bytes();
                     if variant == "rc" {
                         v = key.clone();
